@@ -433,3 +433,44 @@ def queue_scan(ctx, prop, runs, model=True):
                                for rep in reports[:12]]
     for rep in reports[:2]:
         ctx.sample({"qscan_run": {k: rep[k] for k in ("scenario", "rounds", "deliveries", "worst_late_ms")}})
+
+
+def pub_while_consuming(ctx, feats=None):
+    """Connections that publish and consume at once, at full speed (the daemon's reader and writer goroutines of one
+    connection working concurrently), with and without compression / TLS: a black-box ledger over every frame."""
+    import json
+    import os
+    import subprocess
+    from vlib import Inconclusive, log
+    h = ctx.harness("core")
+    total = 0
+    for i, feat in enumerate(feats or (["", "snappy", "deflate", "tls"] if ctx.quick else ["", "snappy", "deflate", "tls"] * 4)):
+        d = os.path.join(ctx.scratch, "pubsub-%d" % i)
+        os.makedirs(d, exist_ok=True)
+        rep = os.path.join(d, "report.json")
+        try:
+            p = subprocess.run([h, "pubsub", "--dir", d, "--seed", str(ctx.seed * 10 + i), "--feat", feat, "--dur",
+                                "2s" if ctx.quick else "6s", "--report", rep], cwd=ctx.scratch, env=ctx.goenv(),
+                               capture_output=True, text=True, timeout=300)
+        except subprocess.TimeoutExpired:
+            ctx.notes.setdefault("pubsub_inconclusive", []).append("timeout (%s)" % feat)
+            continue
+        if not os.path.exists(rep):
+            if "panic:" in p.stderr and "nsqio/nsq/nsqd" in p.stderr:
+                ctx.violation("the daemon panicked while connections were publishing and consuming at the same time (%s):\n%s"
+                              % (feat or "plain", p.stderr[-1500:]), ctx.save_replay("pubsub-panic", {"stderr": p.stderr[-6000:]}),
+                              key="pubsub:panic")
+            else:
+                ctx.notes.setdefault("pubsub_inconclusive", []).append((p.stdout + p.stderr)[-300:])
+            continue
+        R = json.load(open(rep))
+        if R.get("inconclusive"):
+            ctx.notes.setdefault("pubsub_inconclusive", []).append(R["inconclusive"])
+            continue
+        total += R["received"]
+        ctx.notes.setdefault("pubsub", []).append({k: R[k] for k in ("negotiated", "conns", "published", "oks", "received", "seconds")})
+        for f in (R.get("fails") or [])[:2]:
+            ctx.violation("publish-while-consuming (%s): %s" % (feat or "plain", f),
+                          ctx.save_replay("pubsub-%s" % (feat or "plain"), R), key="pubsub:" + f[:30])
+    ctx.cov["evaluations"] += total
+    log("publish-while-consuming: %d messages checked frame by frame" % total)
